@@ -612,10 +612,13 @@ fn run_plain(sc: &Scenario, p: &PlainSpec, keep: bool) -> Report {
     let tick = p.tick_us;
     let r = catch(|| -> Option<Violation> {
         let mut sim = sc.cfg.build();
-        sim.host("h", || async {
-            std::future::pending::<()>().await;
-            Ok(())
-        });
+        // (every other scenario has no host at all: after the clients nothing is left running)
+        if p.late_ticks % 2 == 0 {
+            sim.host("h", || async {
+                std::future::pending::<()>().await;
+                Ok(())
+            });
+        }
         for (i, y) in p.yields.iter().enumerate() {
             let y = *y;
             sim.client(format!("c{i}"), async move {
@@ -628,18 +631,23 @@ fn run_plain(sc: &Scenario, p: &PlainSpec, keep: bool) -> Report {
         let r1 = sim.run();
         log.ev(format!("run #1 -> {:?} elapsed={}us", r1.as_ref().map_err(|e| e.to_string()), us(sim.elapsed())));
         if let Err(e) = r1 {
-            return Some(Violation::new("WrongOutcome", format!("tick {tick}us: {} clients that only yield (at most 5 times) and return Ok, one host that never finishes, duration {}ms: Sim::run returned Err({e}) after {}us", p.yields.len(), sc.cfg.duration_ms, us(sim.elapsed()))));
+            return Some(Violation::new("WrongOutcome", format!("tick {tick}us: {} clients that only yield (at most 5 times) and return Ok (plus, in every other scenario, a host that never finishes), duration {}ms: Sim::run returned Err({e}) after {}us", p.yields.len(), sc.cfg.duration_ms, us(sim.elapsed()))));
         }
         if p.idle_steps == 0 {
             return None;
         }
+        let e1 = us(sim.elapsed());
         for k in 0..p.idle_steps {
             match sim.step() {
                 Ok(true) => {}
                 other => return Some(Violation::new("WrongStepResult", format!("idle step {k} after every client had finished returned {:?}, expected Ok(true)", other.map_err(|e| e.to_string())))),
             }
         }
-        let before = us(sim.elapsed());
+        // every step counts towards the duration, also one in which nothing is left to run
+        let before = e1 + p.idle_steps as u64 * tick;
+        if us(sim.elapsed()) != before {
+            return Some(Violation::new("WrongOutcome", format!("{} steps were taken after every client had finished (clock at {e1}us then, tick {tick}us); Sim::elapsed now says {}us instead of {before}us: these steps did not count towards the simulation duration", p.idle_steps, us(sim.elapsed()))));
+        }
         let lt = p.late_ticks;
         let tk = Duration::from_micros(tick);
         sim.client("late", async move {
